@@ -19,13 +19,15 @@ from concurrent.futures import ThreadPoolExecutor
 from concurrent.futures import wait as cf_wait
 
 META = {
-    "lean_modules": ["QVerif.Props.C17"],
-    "drivers": ["Seeds"],
+    "lean_modules": ["QVerif.Props.C17", "QVerif.Props.C17Instances"],
+    "drivers": ["Seeds", "RandInst"],
     "theorems": [
         "QVerif.Seeds.schedule_independent",
         "QVerif.Seeds.schedules_agree",
         "QVerif.Seeds.run_schedule_independent",
         "QVerif.Seeds.runs_agree",
+        "QVerif.RandInst.randomInstance_accepted",
+        "QVerif.RandInst.randomInstance_total",
         "QVerif.Seeds.inv_exec",
         "QVerif.Seeds.subAt_unique",
         "QVerif.Seeds.shared_generator_depends_on_schedule",
@@ -39,14 +41,17 @@ META = {
     "is schedule dependent even with one worker (shared_generator_depends_on_schedule, kernel-checked). Lifted to whole runs: a run is a sequence of applications of "
     "operators that each own a generator (state kept from application to application) on the population handed from one to the next, every application under its own "
     "arbitrary schedule; the final population and the final state of EVERY operator's generator are those of the sequential reference run (run_schedule_independent, "
-    "runs_agree). NOT a theorem: independence of PYTHONHASHSEED (hash/dict-order behaviour of CPython), determinism of optimisers and "
+    "runs_agree). The random job-shop instance constructor is modelled with every use of its generator (choices / sample / shuffle) as an input (Model/RandomInstance.lean): "
+    "whatever it returns is accepted by the problem-instance validators (randomInstance_accepted), and for valid arguments and draws that the generator can deliver it never raises — "
+    "identifiers never collide, no machine is visited twice (randomInstance_total); so for every seed. NOT a theorem: independence of PYTHONHASHSEED (hash/dict-order behaviour of CPython), determinism of optimisers and "
     "primitives — these are covered by differential runs of the real code only: repeated fresh solves, three single-worker schedules, sub-processes with different "
     "hash seeds, and all random constructors.",
     "level_note": "Trusted: Lean kernel + standard axioms; the model's claim about WHERE the code draws (all draws of the operator's generator in the submitting thread, "
     "seed passed as argument) is tied to mutation.py by the recorded draw log (kind, thread, which draw seeds which task) on every run; the order in which the solver "
     "constructor seeds its operators is compared with Seeds.seedOrder; the whole-run model (generator state persisting across applications, population hand-over) is compared "
     "with real operator objects applied repeatedly (seeds.run).",
-    "rule": "cases = (a') runs of 3-6 applications of three mutation operator objects (own logged generators) on an evolving population, each application on a stock / eager / "
+    "rule": "cases = (a'') random_job_shop_scheduling_instance with an observing Random subclass: 0-4 jobs, 1-5 machines, amounts/durations as values or distributions (valid, invalid, inside "
+    "the 0.001 tolerance), names incl. the empty one; the recorded draws replayed in the model must give the same instance or the same failure kind; (a') runs of 3-6 applications of three mutation operator objects (own logged generators) on an evolving population, each application on a stock / eager / "
     "deferred one-worker executor: seed of every task per individual and draws consumed per operator vs Seeds.runRef; (a) mutation operators (topological search, layer removal, parameter search, last-layer search; probability in {0.3, 0.6, 1}) on populations of 2-7 "
     "individuals x 3 single-worker executors x 2 repetitions; (b) EVQE solves (2-3 qubits, population 3-5, 2-3 generations, COBYLA or SPSA (seeded by the library per task), exact "
     "fake primitives, tournament or roulette selection) x {repeat, eager, deferred} + sub-processes with PYTHONHASHSEED in {0, 1, 4242}; (c) random layer / individual / "
@@ -518,6 +523,121 @@ def history_case(ctx, rng, subprocess_seeds):
                         {"argument_sets": bad, "first": {"expected": ref[bad[0]][:300], "got": got[bad[0]][:300]}}, key="constructors:history")
 
 
+def instance_model_case(ctx, rng):
+    """random_job_shop_scheduling_instance against Model/RandomInstance.lean: every use of the constructor's generator (choices / sample /
+    shuffle) is recorded by an observing subclass and replayed in the model — agreement means that all randomness of the constructor flows through
+    Random(seed), in the modelled order, and that failures are the modelled ones"""
+    import random as pyrandom
+    from fractions import Fraction as F
+
+    import corr_C19
+    from common import rat_str
+    from queasars.job_shop_scheduling import random_problem_instances as mod
+
+    drv = ctx.lean("RandInst")
+    log = []
+
+    class Rec(pyrandom.Random):
+        def choices(s, population, weights=None, *, cum_weights=None, k=1):
+            r = super().choices(population, weights, cum_weights=cum_weights, k=k)
+            log.append(("choices", list(population).index(r[0])))
+            return r
+
+        def sample(s, population, k, **kw):
+            r = super().sample(population, k, **kw)
+            log.append(("sample", [int(m.name[1:]) for m in r]))
+            return r
+
+        def shuffle(s, x):
+            super().shuffle(x)
+            log.append(("shuffle", [int(m.name[1:]) for m in x]))
+
+    nm, nj = rng.randint(1, 5), rng.randint(0, 4)
+    # amounts: dyadic values (float product exact; ties round half to even) or values whose product is far from a tie
+    def amount_value():
+        while True:
+            a = rng.choice([0.25, 0.5, 0.75, 1.0, 0.34, 0.67, 0.2, 0.9, 1.25, 0.1, -0.5, 0.0])
+            x = F(a) * nm
+            if F(a).denominator in (1, 2, 4) or abs((x % 1) - F(1, 2)) > F(1, 1000):
+                return a
+
+    def weights(k):
+        m = rng.randrange(8)
+        if m == 0:
+            w = [0.9 / k] * k  # too little
+        elif m == 1:
+            w = [0.5] * k if k != 2 else [0.7, 0.7]  # too much (unless it happens to be 1)
+        elif m == 2:
+            w = [1.0 / k] * (k - 1) + [1.0 / k - 0.0004]  # inside the tolerance of 0.001
+        else:
+            cuts = sorted(rng.randint(1, 15) for _ in range(k - 1))
+            w = [(b - a) / 16 for a, b in zip([0] + cuts, cuts + [16])]
+        return w
+
+    if rng.random() < 0.5:
+        amount = amount_value()
+        amount_json = {"val": rat_str(F(amount))}
+    else:
+        ks = rng.sample([0.25, 0.5, 0.75, 1.0, 0.34, 0.67, 0.2, 0.9], rng.randint(1, 3))
+        ks = [a for a in ks if F(a).denominator in (1, 2, 4) or abs(((F(a) * nm) % 1) - F(1, 2)) > F(1, 1000)] or [0.5]
+        ws = weights(len(ks))
+        amount = dict(zip(ks, ws))
+        amount_json = {"dist": [[rat_str(F(a)), rat_str(F(w))] for a, w in amount.items()]}
+    if rng.random() < 0.4:
+        dur = rng.choice([1, 2, 3, 7, 0, -1])
+        dur_json = {"val": dur}
+    else:
+        ks = rng.sample([1, 2, 3, 4, 5, 9, 0, -2], rng.randint(1, 3))
+        dur = dict(zip(ks, weights(len(ks))))
+        dur_json = {"dist": [[d, rat_str(F(w))] for d, w in dur.items()]}
+    name = rng.choice(["inst", "i", "", "x y"])
+    seed = rng.randrange(2**31)
+    saved = mod.Random
+    mod.Random = Rec
+    try:
+        try:
+            inst = mod.random_job_shop_scheduling_instance(name, nj, nm, amount, dur, seed)
+            impl = {"ok": {"name": inst.name, "machines": [m.name for m in inst.machines],
+                           "jobs": [[j.name, [[o.name, o.job_name, o.machine.name, o.processing_duration] for o in j.operations]] for j in inst.jobs]}}
+        except ValueError as e:
+            impl = {"err": "badDistribution" if "probabilit" in str(e) else "sampleError" if "ample" in str(e) else "ValueError:" + str(e)[:40]}
+        except Exception as e:  # noqa: BLE001
+            k = corr_C19.kind_of(e)
+            impl = {"err": "emptyJob" if k == "jobNoOps" else "invalid:" + str(k)}
+    finally:
+        mod.Random = saved
+    # the recorded uses, grouped per job
+    draws, i = [], 0
+    amount_is_dist, dur_is_dist = isinstance(amount, dict), isinstance(dur, dict)
+    while i < len(log):
+        d = {"amount": None, "sample": [], "shuffled": [], "durs": []}
+        if amount_is_dist and log[i][0] == "choices":
+            d["amount"] = log[i][1]
+            i += 1
+        if i < len(log) and log[i][0] == "sample":
+            d["sample"] = log[i][1]
+            i += 1
+        if i < len(log) and log[i][0] == "shuffle":
+            d["shuffled"] = log[i][1]
+            i += 1
+        if dur_is_dist:
+            while i < len(log) and log[i][0] == "choices" and len(d["durs"]) < len(d["shuffled"]):
+                d["durs"].append(log[i][1])
+                i += 1
+        else:
+            d["durs"] = [None] * len(d["shuffled"])
+        draws.append(d)
+    # one entry per job of the loop: an iteration that raised before its first recorded draw (invalid distribution, `sample` refusing) has none
+    while len(draws) < nj:
+        draws.append({"amount": None, "sample": [], "shuffled": [], "durs": []})
+    inp = {"kind": "instance_model", "name": name, "n_jobs": nj, "n_machines": nm, "amount": amount_json, "dur": dur_json, "seed": seed}
+    ctx.case(inp, nontrivial=nj >= 2 and "ok" in impl, tags=["instance-model", "outcome:" + ("ok" if "ok" in impl else impl["err"].split(":")[0])])
+    if drv is None:
+        return
+    m = drv.ask({"op": "randinst.build", "name": name, "n_machines": nm, "amount": amount_json, "dur": dur_json, "draws": draws})
+    ctx.compare("randinst.build: the instance built from the recorded draws / the failure", inp, impl, m)
+
+
 def seed_order_case(ctx):
     """the solver constructor seeds its operators from the master generator in the order of Seeds.seedOrder"""
     from qiskit_algorithms.optimizers import COBYLA
@@ -571,6 +691,10 @@ def run(ctx):
         if ctx.out_of_time():
             break
         run_of_applications_case(ctx, rng)
+    for _ in range(ctx.n(300, 6000)):
+        if ctx.out_of_time():
+            break
+        instance_model_case(ctx, rng)
     hs = [0, 1, 4242] if ctx.thorough() else [0, 4242]
     constructors_case(ctx, rng, hs)
     history_case(ctx, rng, hs)
